@@ -270,7 +270,118 @@ def check_seq(plan) -> Result:
     return r
 
 
+async def scenario_lifecycle(loop, plan, out):
+    """The application is brought up with its real start_network(), receives callbacks, loses the NCP and is brought up
+    again on a new EZSP object (as its reconnect does) - with or without an orderly disconnect() in between.  Callbacks on
+    the new connection must be translated exactly like on the first one."""
+    import bellows.ezsp as e
+    import bellows.types as bt
+    import zigpy.types as zt
+    from vlib import netsim
+
+    v = plan["v"]
+
+    class LifeSim(netsim.NetSim):
+        def cmd_addEndpoint(self, **kw):
+            return {"status": "OK"}
+
+        def cmd_setConcentrator(self, **kw):
+            return {"status": "OK"}
+
+        def cmd_setSourceRouteDiscoveryMode(self, **kw):
+            return {"remainingTime": 0}
+
+        def cmd_getMulticastTableEntry(self, index):
+            return {"status": "OK", "value": bt.EmberMulticastTableEntry(multicastId=0, endpoint=0, networkIndex=0)}
+
+        def cmd_setMulticastTableEntry(self, index, value):
+            return {"status": "OK"}
+
+        def cmd_setManufacturerCode(self, code):
+            return {}
+
+        def cmd_getExtendedTimeout(self, **kw):
+            return {"extendedTimeout": False}
+
+    def new_connection():
+        sim = LifeSim(loop, v)
+        sim.network = bt.EmberNetworkParameters(extendedPanId=bt.ExtendedPanId.deserialize(bytes.fromhex("f1f2f3f4f5f6f7f8"))[0], panId=0x7A7A,
+                                                radioTxPower=8, radioChannel=25, joinMethod=0, nwkManagerId=0, nwkUpdateId=9, channels=1 << 25)
+        sim.current_sec = dict(hashed=v > 4, preconfiguredKey=bytes(range(0x70, 0x80)), networkKey=bytes(range(0x90, 0xA0)), seq=77,
+                               tc_eui64=sim.eui64(), given_tc=None)
+        sim.stack_up = True
+        ezsp = e.EZSP({"path": "/dev/null", "baudrate": 115200, "flow_control": None})
+        sim.attach(ezsp)
+        ezsp._switch_protocol_version(v)
+        ezsp.start_ezsp()
+        return sim, ezsp
+
+    app = zshim.make_app()
+    packets, joins, leaves = [], [], []
+    app.packet_received = lambda p: packets.append(p)
+    app.handle_join = lambda nwk, ieee, parent, *a, **k: joins.append((int(nwk), bytes(ieee.serialize()), int(parent)))
+    app.handle_leave = lambda nwk, ieee, *a, **k: leaves.append((int(nwk), bytes(ieee.serialize())))
+    want = ([], [], [])
+    out["raised"] = None
+    out["bringup"] = None
+    for phase, items in (("first", plan["before"]), ("second", plan["after"])):
+        sim, ezsp = new_connection()
+        app._ezsp = ezsp
+        try:
+            app._created_device_endpoints.clear()
+            await app.register_endpoints()
+            await asyncio.wait_for(app.start_network(), 200)
+        except Exception as ex:
+            out["bringup"] = f"{phase}: {ex!r}"
+            break
+        own = int(app.state.node_info.nwk)
+        for item in items:
+            w = expect(item, own)
+            for a, b in zip(want, w):
+                a.extend(b)
+            try:
+                ezsp.frame_received(build(dict(item, seq=sim.last_resp_seq & 0xFF)))
+            except Exception as ex:
+                out["raised"] = repr(ex)
+            await asyncio.sleep(item.get("gap") or 0.01)
+        await asyncio.sleep(1)
+        if phase == "first":
+            if plan["how"] == "disconnect":
+                await app.disconnect()
+            else:
+                # the NCP fails: EZSP stops and asks for a controller restart; the application reconnects without an
+                # orderly disconnect
+                ezsp.enter_failed_state(0x51)
+                await asyncio.sleep(0.1)
+    await asyncio.sleep(30)
+    out.update(packets=packets, joins=joins, leaves=leaves, want=want)
+
+
+def check_lifecycle(plan) -> Result:
+    r = Result(nontrivial=True, classes=["lifecycle", "reconnect:" + plan["how"]])
+    out = {}
+    try:
+        vloop.run_case(lambda loop: scenario_lifecycle(loop, plan, out), horizon=1e6)
+    except vloop.Hang:
+        r.bad("C13:hang", f"{plan}")
+        return r
+    if out.get("bringup"):
+        r.bad("C13:harness:bring-up-failed", f"{out['bringup']}; plan {plan}")
+        return r
+    if out["raised"]:
+        r.bad("C13:receive-raises", f"{out['raised']}; plan {plan}")
+        return r
+    wp, wj, wl = out["want"]
+    got_n = (len(out["packets"]), len(out["joins"]), len(out["leaves"]))
+    if got_n != (len(wp), len(wj), len(wl)) or out["joins"] != wj or out["leaves"] != wl:
+        r.bad("C13:lifecycle:callbacks-not-translated-after-reconnect", f"packets/joins/leaves {got_n}, expected {(len(wp), len(wj), len(wl))} "
+              f"({len(plan['before'])} callbacks before and {len(plan['after'])} after the reconnect); plan {plan}")
+    return r
+
+
 def replay(plan) -> Result:
+    if "how" in plan:
+        return check_lifecycle(plan)
     return check_seq(plan) if "items" in plan else check(plan)
 
 
@@ -348,8 +459,24 @@ def seq_plans(draw, v):
     return plan
 
 
+@st.composite
+def life_plans(draw, v):
+    def items(k):
+        out = []
+        for _ in range(k):
+            it = dict(draw(st.one_of(_msg_plans(v), _join_plans(v))))
+            if it["t"] == "msg":
+                it["mtype"] = draw(st.sampled_from([refezsp.INCOMING_UNICAST, refezsp.INCOMING_MULTICAST, refezsp.INCOMING_BROADCAST]))
+            out.append(it)
+        return out
+    return {"v": v, "how": draw(st.sampled_from(["failure", "failure", "disconnect"])), "before": items(draw(st.integers(0, 2))),
+            "after": items(draw(st.integers(1, 3)))}
+
+
 def _worker(ctx, job):
     v, n = job
+    if v <= 14:
+        ctx.search(life_plans(v), check_lifecycle, max_examples=max(n // 40, 4))
     ctx.search(seq_plans(v), check_seq, max_examples=max(n // 2, 30))
     ctx.search(msg_plans(v), check, max_examples=n)
     ctx.search(join_plans(v), check, max_examples=max(n // 3, 20))
